@@ -73,7 +73,8 @@ def merge_case(draw, max_probes=4, exclude_f13=True, max_nc=6, max_ns=25, big_te
     # probe directory names: the order GIVEN defines probe k; it is not always the lexicographic one
     return {'probes': probes, 'f13_excluded': excluded,
             'dir_names': draw(st.sampled_from(['asc', 'desc', 'num', 'nested'])),
-            'out_is_parent': draw(st.integers(0, 3)) == 0}
+            'out_is_parent': draw(st.integers(0, 3)) == 0,
+            'rel': draw(st.integers(0, 3)) == 0}
 
 
 def build_probes(case, root):
@@ -119,8 +120,38 @@ def out_dir_for(case, root, name='merged'):
     return Path(root) / name
 
 
-def run_merge(Ts, out_dir, must_return):
+import contextlib  # noqa: E402
+
+
+@contextlib.contextmanager
+def in_dir(d):
+    """Run a block with d as the current directory (no-op for None)."""
+    import os
+    if d is None:
+        yield
+        return
+    cwd = os.getcwd()
+    os.chdir(str(d))
+    try:
+        yield
+    finally:
+        os.chdir(cwd)
+
+
+def run_merge(Ts, out_dir, must_return, rel_root=None):
     from phylib.io.merge import Merger
-    merger = must_return('Merger()', Merger, [T.dir for T in Ts], out_dir)
-    model = must_return('Merger.merge()', merger.merge)
+    if rel_root is None:
+        merger = must_return('Merger()', Merger, [T.dir for T in Ts], out_dir)
+        model = must_return('Merger.merge()', merger.merge)
+        return merger, model
+    # probe folders (and the output folder) spelled relative to the session directory
+    import os
+    cwd = os.getcwd()
+    os.chdir(str(rel_root))
+    try:
+        rel = lambda p: Path(os.path.relpath(str(p), str(rel_root)))  # noqa: E731
+        merger = must_return('Merger()', Merger, [rel(T.dir) for T in Ts], rel(out_dir))
+        model = must_return('Merger.merge()', merger.merge)
+    finally:
+        os.chdir(cwd)
     return merger, model
